@@ -87,6 +87,7 @@ class Session:
         self.next_reply_data = None
         self.trace = []
         self.steps = []                  # the same events grouped per environment action (one LanSession step each)
+        self.conn_time = {}              # connection number -> wall-clock instant it was established
         self.task = None
         self.call_name = None
         self.result = None
@@ -373,8 +374,12 @@ class Session:
     def call_auth(self, creds, reply=None, hexform=False, level="lan"):
         tok, key = (self.tok_good, self.key_good) if creds == "good" else (self.tok_bad, self.key_bad)
         self.presented_key = key
-        if hexform:
+        if hexform in (True, "both"):
             tok, key = tok.hex(), key.hex()
+        elif hexform == "token":
+            tok = tok.hex()
+        elif hexform == "key":
+            key = key.hex()
         if level == "dev":                    # through Device.authenticate (default retry budget)
             return self._call("auth", lambda: self.obj.authenticate(tok, key), creds, reply)
         return self._call("auth", lambda: self.lan.authenticate(tok, key, retries=self.retries), creds, reply)
@@ -429,6 +434,7 @@ class Session:
         fut.set_result("ok" if how == "ok" else "refuse")
         self.loop.run_idle()
         if how == "ok":
+            self.conn_time[len(self.net.conns)] = vloop.VClock.now().timestamp()
             return self._collect({"e": "connok", "c": len(self.net.conns)})
         return self._collect({"e": "connrefuse"})
 
@@ -476,7 +482,11 @@ class Session:
         return self._collect({"e": "jumpauth"})
 
     def jumplife(self):
-        vloop.VClock.offset += (self.lifetime or 0) + 1
+        """The wall clock jumps to just past (instant the current connection was established) + max_connection_lifetime."""
+        t_conn = self.conn_time.get(len(self.net.conns), None)
+        now = vloop.VClock.now().timestamp()
+        target = (t_conn + (self.lifetime or 0) + 1) if t_conn is not None else now + (self.lifetime or 0) + 1
+        vloop.VClock.offset += max(target - now, 1.0)
         return self._collect({"e": "jumplife"})
 
     def settle(self, *, hs=None, data=None, connect="ok", deliver=True, limit=60, until=None, last=None):
